@@ -227,6 +227,11 @@ func (x *fnExec) load(st *State, p Val, t types.Type) Val {
 	for _, l := range leaves(t) {
 		v := x.loadLeaf(st, p.Prefix+l.path, l.sort, p.Ref, p.Idx)
 		ts = append(ts, v)
+		if nn := x.P.nonNilKeys[p.Prefix+l.path]; nn != nil && l.path == "" && v.S.K == KBV {
+			// field set once, to a non-nil value, by the constructor (obligation nonnil#Type)
+			x.assumed["fields of "+nn.Type+" set only by its constructor are non-nil; justified by obligation nonnil#"+nn.Type] = true
+			x.assume(st, Implies(Not(Eq(p.Ref, BVU(0, 64))), Not(Eq(v, BVU(0, v.S.W)))))
+		}
 	}
 	v := unflatten(t, &ts)
 	x.recordRefs(v)
@@ -850,7 +855,13 @@ func (x *fnExec) instr(fr *frame, st *State, instr ssa.Instruction) {
 				x.countSend(st, x.val(fr, s.Chan).T)
 			}
 		}
-		fr.env[t] = freshVal("select", t.Type())
+		sv := freshVal("select", t.Type())
+		if t.Blocking && sv.K == VTuple && len(sv.Fs) > 0 && sv.Fs[0].T != nil && sv.Fs[0].T.S.K == KBV {
+			// a blocking select returns the index of the case that fired: one of its cases
+			w := sv.Fs[0].T.S.W
+			x.assume(st, And(BVCmp("bvsge", sv.Fs[0].T, BVU(0, w)), BVCmp("bvslt", sv.Fs[0].T, BVU(uint64(len(t.States)), w))))
+		}
+		fr.env[t] = sv
 	case *ssa.Send:
 		x.countSend(st, x.val(fr, t.Chan).T)
 	case *ssa.Slice:
